@@ -42,6 +42,26 @@ T.update({
             "bound analysis (monotone transfer rules over reaching definitions) + bounded abstract evaluation with stubbed randomness"),
 })
 
+T.update({
+    "C10": ("other", "Necessary clauses only (round-trip isomorphism itself is not decidable statically and is NOT claimed): SPLICE-ORDER - the deferred save/memoize/write operations of _NonrecursivePickler reach the file in the recursive pickler's order on every object tree/DAG of the scope (dill.Pickler replaced by a stand-in); NONREC - constant abstract call depth on chains and save() never reaches realsave; REGISTRY - objects with empty class-level state work with caching on.", "5/C10 and 7",
+            "abstract evaluation of the queue discipline against a stand-in recursive pickler + call-graph rule; behaviour of dill/pickle is trusted",
+            "Assumes dill/pickle round-trip edgegraph objects for every protocol (third-party, run-time behaviour). What is decided is edgegraph's own contribution: operation order, bounded call depth, no __init__-only registries."),
+    "C11": ("exploration", "Bounded-exhaustive transformer equivalence of load_adj_dict / load_adj_matrix with a reference builder on every adjacency input of the scope (self/repeated/empty entries, values never used as key, several truthy cell kinds, three link types, vertices with prior links and universes); every malformed matrix shape must raise ValueError with the heap unchanged.", "5/C11",
+            "small-scope abstract evaluation against a reference builder"),
+    "C12": ("proof", "Heap-identity escape/capture decision: every accessor and query named in the statement (caching off / cold / warm, incl. empty results) returns no mutable container reachable from the graph's state; every constructor/builder keeps none of the caller's containers (incl. nested and empty ones).", "5/C12",
+            "escape / capture analysis by abstract evaluation with heap identity"),
+    "C13": ("fault_enumeration", "Every read-only entry point x caching off/on x {no callbacks, well-behaved, each callback raising at its k-th invocation for every k that occurs, pyvis add_edge raising}: projected heap unchanged and the repeated call gives the fault-free answer.", "5/C13",
+            "fault enumeration over callback invocation points by abstract evaluation + TEMP pointer rule"),
+    "C14": ("proof", "render_to_plantuml_src evaluated on symbolic strings over scenario universes (directed/undirected/self-loop/parallel/mixed links, subclasses incl. multiple inheritance, link leaving the universe, custom option tables and title format): each member declared once with the nearest configured class's options, exactly one correctly oriented relation line per internal link; _resolve_options table.", "5/C14",
+            "abstract interpretation with a symbolic-string domain, multiset comparison of recognised lines"),
+    "C15": ("proof", "make_pyvis_net evaluated with pyvis.Network replaced by a recorder: for every class of link kind/position (internal both orientations, self-loops, leaving the universe, None end, outside vertex with or without a stale index attribute) and pairs of links the add_node / directed / add_edge events equal the specified ones.", "5/C15",
+            "decision table at the call interface to the external library (recording stub)"),
+    "C17": ("proof", "Inductive step over the per-class key->instance maps: pre-states reached through the public API x every operation (class call with 9 argument forms incl. hash-colliding -1/-2 and keyword permutations, add_mapping, drop, check, get_all, clear) for classes sharing a metaclass, a subclass, an own-metaclass class and a falsy-instance class, three key functions; post-state observed for every (class, key).", "5/C17",
+            "abstract interpretation of the metaclass protocol (inductive step against a map model; hash abstracted to CPython's value model)"),
+    "C18": ("proof", "Inductive step over the class->instance table: every subset of live singleton classes (incl. subclass, falsy-instance class) x construction with arguments / targeted clear (present or absent) / global clear; identity, class, __init__ log and the re-observed table compared with the model.", "5/C18",
+            "abstract interpretation of the metaclass protocol (inductive step against a table model)"),
+})
+
 REASONS_PENDING = "check under construction in this build phase (see DESIGN.md section 5 for the planned static rule)"
 
 
